@@ -14,7 +14,7 @@
 (*   observations of the scripted peer, taken on the goroutine doing the I/O: x.sent{c, req} (a complete       *)
 (*     request arrived), x.full{c, rid, keep, dead} (the last byte of a complete response was handed to the    *)
 (*     reader), x.eof{c, at}, x.timeout{c}, x.closed{c}                                                        *)
-(*   Call{p, req, idem, qt, rt}, ctx.cancel{p}, Return{p, req, resp, err, ms, qt, rt}                          *)
+(*   Call{p, req, idem, qt, rt}, ctx.cancel{p}, Return{p, req, resp, err, ms, qt, rt, slack}                   *)
 (*   Quiescent{total, idle, nq, open}, Gauge{pending, ...}, End                                                *)
 (*   Panic / Hang / Stuck have no action: the case is rejected.                                                *)
 (*                                                                                                             *)
@@ -211,8 +211,11 @@ TExit  == /\ Ev("do.exit") /\ IsCaller /\ DoExit(Line.p) /\ KeepAux /\ Consume
 
 Max(a, b) == IF a > b THEN a ELSE b
 \* a call given a request timeout (qt) or else a read timeout (rt) returns within it plus the scheduling slack
-InTime == LET t == IF Line.qt > 0 THEN Line.qt ELSE Line.rt IN
-          t > 0 => Line.ms <= t + Max(1000, 10 * t)
+\* (ms is measured from the START of the call).  The slack is max(1 s, 10 t) unless the case declares its own
+\* (real-time cases: the injected delays are known, so the slack is chosen well below them)
+InTime == LET t == IF Line.qt > 0 THEN Line.qt ELSE Line.rt
+              s == IF Line.slack >= 0 THEN Line.slack ELSE Max(1000, 10 * t) IN
+          t > 0 => Line.ms <= t + s
 
 TReturn == /\ Ev("Return") /\ IsCaller /\ Line.req = cur[Line.p] /\ Line.req = callp[Line.p].req
            /\ Return(Line.p, Line.err = "ok")
